@@ -740,3 +740,17 @@ func (w *World) genDlgSettle(st *state.StateDB) *TxInfo {
 	d := ds[w.R.Intn(len(ds))]
 	return w.stk(d.user, staking.DelegationSettle, &staking.TxDelegationSettle{Validator: d.to.Validator}, gasStk, "stk.dlgsettle", "valid", nil)
 }
+
+// TinyCreate is a valid creation of a House validator whose self stake is lu LU (stake 0; 2 % of it
+// rounds to zero), sent by user 5.
+func (w *World) TinyCreate(st *state.StateDB, lu int64) (TxInfo, common.Address) {
+	w.nonces = map[common.Address]uint64{}
+	for i := 0; i < w.Sc.Users; i++ {
+		w.nonces[w.UA(i)] = st.GetNonce(w.UA(i))
+	}
+	u := 5
+	key := w.newValKey()
+	tx := &staking.TxCreateValidator{Name: "tiny", OperatorAddress: w.UA(u), Coinbase: w.UA(u), Value: big.NewInt(lu), Role: params.RoleHouse,
+		MainPubKey: w.Keys.ValMainPub(key), BlsPubKey: w.Keys.ValBlsPub(key)}
+	return *w.stk(u, staking.ValidatorCreate, tx, gasCreate, "stk.create", "valid", tx.Value), w.VA(key)
+}
